@@ -378,8 +378,13 @@ func verifH_CliConversation() {
 			for e := fr.items.Front(); e != nil; e = e.Next() {
 				q += uint64(fr.measure(e.Value.(tunnelpb.ServerToClientFrame)))
 			}
+			w := uint64(fr.currentWindow)
 			fr.mu.Unlock()
 			verifAssert(q <= initialWindowSize, "C06+C09.cli-conv-queued-bytes-within-one-window")
+			// the bound that is enforced is the window this end advertised, whatever the peer's settings say
+			if st.done.Load() == nil {
+				verifAssert(q+w == initialWindowSize, "C06+C09.cli-conv-receiver-enforces-the-window-this-end-advertised")
+			}
 		}
 	}
 	// a caller that now asks gets a terminal result or keeps waiting, never a fabricated message after the end
